@@ -46,6 +46,67 @@ pub trait Scalar: CoordNum + std::fmt::Debug + 'static {
     fn derive(_p: &Polygon<Self>, _k: u8) -> (Vec<Polygon<Self>>, Vec<Rect<Self>>) {
         (vec![], vec![])
     }
+    /// the `Arbitrary` constructors of geo-types (feature `arbitrary`, floats only): every Polygon
+    /// / Rect that comes out of `Polygon::arbitrary`, `Rect::arbitrary`, `Geometry::arbitrary`
+    /// (at any nesting depth) for the given fuzzer bytes, and the number of objects dropped
+    /// because a coordinate was not finite
+    fn arbitrary(_bytes: &[u8], _kind: u8) -> (Vec<Polygon<Self>>, Vec<Rect<Self>>, usize) {
+        (vec![], vec![], 0)
+    }
+}
+
+fn arbitrary_impl<T>(bytes: &[u8], kind: u8) -> (Vec<Polygon<T>>, Vec<Rect<T>>, usize)
+where
+    T: Scalar + geo_types::CoordFloat + for<'a> arbitrary::Arbitrary<'a>,
+{
+    use arbitrary::{Arbitrary, Unstructured};
+    fn collect<T: Scalar>(g: Geometry<T>, ps: &mut Vec<Polygon<T>>, rs: &mut Vec<Rect<T>>) {
+        match g {
+            Geometry::Polygon(p) => ps.push(p),
+            Geometry::MultiPolygon(m) => ps.extend(m.0),
+            Geometry::Rect(r) => rs.push(r),
+            Geometry::GeometryCollection(c) => c.0.into_iter().for_each(|g| collect(g, ps, rs)),
+            _ => {}
+        }
+    }
+    let mut u = Unstructured::new(bytes);
+    let (mut ps, mut rs) = (vec![], vec![]);
+    match kind % 4 {
+        0 => {
+            if let Ok(p) = Polygon::<T>::arbitrary(&mut u) {
+                ps.push(p)
+            }
+        }
+        1 => {
+            if let Ok(r) = Rect::<T>::arbitrary(&mut u) {
+                rs.push(r)
+            }
+        }
+        2 => {
+            if let Ok(m) = MultiPolygon::<T>::arbitrary(&mut u) {
+                ps.extend(m.0)
+            }
+        }
+        _ => {
+            // the Geometry enum, variant chosen here: `Geometry::arbitrary` itself can pick
+            // GeometryCollection, whose `arbitrary` on the pinned tree is `u.arbitrary()` at type Self,
+            // i.e. calls itself for ever (observed: a 4-byte input spins at 100 % CPU) - a defect of that
+            // feature-gated constructor, but not of any listed property, so it is avoided, not judged
+            let g = match u.int_in_range(0..=2u8).unwrap_or(0) {
+                0 => Polygon::<T>::arbitrary(&mut u).map(Geometry::Polygon),
+                1 => MultiPolygon::<T>::arbitrary(&mut u).map(Geometry::MultiPolygon),
+                _ => Rect::<T>::arbitrary(&mut u).map(Geometry::Rect),
+            };
+            if let Ok(g) = g {
+                collect(g, &mut ps, &mut rs)
+            }
+        }
+    }
+    let n0 = ps.len() + rs.len();
+    ps.retain(|p| p.exterior().0.iter().chain(p.interiors().iter().flat_map(|r| r.0.iter())).all(|c| c.x.finite() && c.y.finite()));
+    rs.retain(|r| r.min().x.finite() && r.min().y.finite() && r.max().x.finite() && r.max().y.finite());
+    let dropped = n0 - ps.len() - rs.len();
+    (ps, rs, dropped)
 }
 impl Scalar for f64 {
     const NAME: &'static str = "f64";
@@ -71,6 +132,9 @@ impl Scalar for f64 {
     fn derive(p: &Polygon<f64>, k: u8) -> (Vec<Polygon<f64>>, Vec<Rect<f64>>) {
         derive_f64(p, k)
     }
+    fn arbitrary(bytes: &[u8], kind: u8) -> (Vec<Polygon<f64>>, Vec<Rect<f64>>, usize) {
+        arbitrary_impl::<f64>(bytes, kind)
+    }
 }
 impl Scalar for f32 {
     const NAME: &'static str = "f32";
@@ -95,6 +159,9 @@ impl Scalar for f32 {
     }
     fn derive(p: &Polygon<f32>, k: u8) -> (Vec<Polygon<f32>>, Vec<Rect<f32>>) {
         derive_f32(p, k)
+    }
+    fn arbitrary(bytes: &[u8], kind: u8) -> (Vec<Polygon<f32>>, Vec<Rect<f32>>, usize) {
+        arbitrary_impl::<f32>(bytes, kind)
     }
 }
 impl Scalar for i32 {
@@ -338,6 +405,8 @@ pub enum Op {
     EnumRoundTrip { kind: u8, cs: Vec<C> },
     Macros { k: u8 },
     LsClose { ring: Vec<C> },
+    /// the `Arbitrary` constructors (geo-types feature `arbitrary`) fed with fuzzer bytes
+    ArbitraryCtor { bytes: Vec<u8>, kind: u8 },
 }
 
 #[derive(Serialize, Deserialize, Clone, Debug)]
@@ -405,6 +474,7 @@ pub fn op_name(op: &Op) -> &'static str {
         Op::EnumRoundTrip { .. } => "T->Geometry->T",
         Op::Macros { .. } => "polygon!/wkt!",
         Op::LsClose { .. } => "LineString::close",
+        Op::ArbitraryCtor { .. } => "Polygon/Rect/MultiPolygon/Geometry::arbitrary",
     }
 }
 
@@ -1100,6 +1170,34 @@ impl<T: Scalar> State<T> {
             Op::Macros { k } => {
                 macros_step::<T>(*k)?;
             }
+            Op::ArbitraryCtor { bytes, kind } => {
+                let (ps, rs, dropped) = T::arbitrary(bytes, *kind);
+                if dropped > 0 {
+                    pr.hit("arbitrary_non_finite_dropped");
+                }
+                if !ps.is_empty() || !rs.is_empty() {
+                    pr.hit("arbitrary_constructed");
+                }
+                for p in ps.into_iter().take(4) {
+                    Self::check_poly(&p, "polygon built by an Arbitrary constructor")?;
+                    // only short rings of moderate magnitude live on in the pool (later geo-level steps -
+                    // densify, hulls, boolean ops - must not be handed 1e300-sized or 1000-vertex garbage)
+                    let moderate = |c: &geo_types::Coord<T>| [c.x, c.y].iter().all(|v| {
+                        let f = v.to_f64().unwrap_or(0.0).abs();
+                        f == 0.0 || (1e-3..=1e4).contains(&f)
+                    });
+                    if p.exterior().0.len() <= 12 && p.interiors().len() <= 3 && p.exterior().0.iter().chain(p.interiors().iter().flat_map(|r| r.0.iter())).all(moderate) {
+                        self.add_poly(p);
+                    }
+                }
+                for r in rs.into_iter().take(3) {
+                    Self::check_rect(&r, "Rect built by an Arbitrary constructor")?;
+                    if self.rects.len() >= MAX_RECTS {
+                        self.rects.remove(0);
+                    }
+                    self.rects.push(r);
+                }
+            }
             Op::LsClose { ring: r } => {
                 let mut ls = ring::<T>(r);
                 let before = ls.0.clone();
@@ -1407,9 +1505,34 @@ pub fn gen_op(rng: &mut Rng) -> Op {
             _ => Op::LineConv { a: gen_c(rng), b: gen_c(rng) },
         },
         38 => Op::EnumRoundTrip { kind: rng.below(10) as u8, cs: gen_ring(rng) },
-        _ => match rng.below(2) {
+        _ => match rng.below(3) {
             0 => Op::Macros { k: rng.below(4) as u8 },
-            _ => Op::LsClose { ring: gen_ring(rng) },
+            1 => Op::LsClose { ring: gen_ring(rng) },
+            _ => {
+                // fuzzer bytes: mostly small "nice" doubles (exponent bytes 0x3f / 0x40 / 0xc0), sometimes raw
+                let n = rng.below(160);
+                let raw = rng.chance(1, 4);
+                let bytes: Vec<u8> = (0..n)
+                    .map(|i| {
+                        if raw {
+                            rng.below(256) as u8
+                        } else {
+                            match i % 8 {
+                                7 => *rng.pick(&[0x3fu8, 0x40, 0xc0, 0xbf, 0x00]),
+                                6 => (rng.below(16) * 16) as u8,
+                                _ => {
+                                    if rng.chance(1, 6) {
+                                        rng.below(256) as u8
+                                    } else {
+                                        0
+                                    }
+                                }
+                            }
+                        }
+                    })
+                    .collect();
+                Op::ArbitraryCtor { bytes, kind: rng.below(4) as u8 }
+            }
         },
     }
 }
